@@ -1,12 +1,23 @@
-//! usage: dtr_probe <n> — parses a test that uses one identifier of n characters, on a thread with a 2 MiB stack.
-//! Prints `probe ok` / `probe err`; a native stack overflow aborts the process (SIGABRT), which the caller sees.
+//! usage: dtr_probe <n>        — parses a test that uses one identifier of n characters,
+//!        dtr_probe chain <n>  — parses a test whose one row entry is the flat sum `(1+1+…+1)` of n terms,
+//! on a thread with a 2 MiB stack.  Prints `probe ok` / `probe err`; a native stack overflow aborts the process
+//! (SIGABRT), which the caller sees.
 fn main() {
-    let n: usize = std::env::args().nth(1).and_then(|a| a.parse().ok()).unwrap_or(1000);
+    let args: Vec<String> = std::env::args().skip(1).collect();
+    let (chain, n) = match args.as_slice() {
+        [m, n] if m == "chain" => (true, n.parse().unwrap_or(1000usize)),
+        [n] => (false, n.parse().unwrap_or(1000usize)),
+        _ => (false, 1000usize),
+    };
     let h = std::thread::Builder::new()
         .stack_size(2 << 20)
         .spawn(move || {
-            let name = "v".repeat(n);
-            let src = format!("A Y\nlet {name} = 1;\n({name}) 1\n");
+            let src = if chain {
+                format!("A\n({})\n", vec!["1"; n].join("+"))
+            } else {
+                let name = "v".repeat(n);
+                format!("A Y\nlet {name} = 1;\n({name}) 1\n")
+            };
             src.parse::<digital_test_runner::ParsedTestCase>().is_ok()
         })
         .expect("cannot start a thread");
